@@ -89,6 +89,14 @@ def mk_client_side(clock=None, key=KEY, status=None):
     return c
 
 
+def new_key(name):
+    """EllipticCurvePrivateKey: a model key under sx, a real P-256 key in a concrete replay"""
+    if core._rp() is not None:
+        return conn.crypto.EllipticCurvePrivateKey.new()
+    from sx.models import crypto_m
+    return conn.crypto.EllipticCurvePrivateKey(crypto_m.new_private_key(name))
+
+
 def sym_seq(name, lo=1):
     return SeqNum(symint(name, lo, 65535))
 
